@@ -395,6 +395,14 @@ func Run(c *core.Ctx) {
 			}
 		}
 	}
+	// (2b) placeholder names of which one is a prefix of another, in both orders, with group tags naming either
+	for _, p := range [][]string{{"a", "$xy", "$x"}, {"a", "$x", "$xy"}, {"$xy", "$x"}, {"$x", "$xy"}, {"a", "$xy"}, {"a", "$x"}, {"$xyz", "b", "$xy"}} {
+		for _, g := range []string{"${x}", "${xy}", "${x}.${xy}", "${xy}${x}", "p${x}", "${xyz}", "${xy}.b"} {
+			for _, plan := range []int{0, 1 + rng.Intn(len(plans)-1)} {
+				mk([]string{"", "s"}[rng.Intn(2)], plan, rng.Intn(2) == 0, hreg{toks: p, grp: g, place: []string{"root", "sub"}[rng.Intn(2)]})
+			}
+		}
+	}
 	// (3) all pairs of patterns up to 2 tokens (exhaustive), arrangement drawn per pair
 	var short [][]string
 	for _, p := range pats {
